@@ -181,7 +181,7 @@ func runB(raw json.RawMessage) *core.Violation {
 	}
 	// order / completeness of a sequence of projections w.r.t. the threads
 	judge := func(who string, seq []string, sigp string) *core.Violation {
-		pos := make([]int, len(want))
+		got := make([][]string, len(want))
 		seen := map[string]int{}
 		for _, p := range seq {
 			tk := tokenOf(p, tag+"t")
@@ -194,17 +194,26 @@ func runB(raw json.RawMessage) *core.Violation {
 			}
 			var ti int
 			fmt.Sscanf(tk[len(tag):], "t%d-", &ti)
-			if ti < 0 || ti >= len(want) {
-				continue
+			if ti >= 0 && ti < len(want) {
+				got[ti] = append(got[ti], tk)
 			}
-			if pos[ti] >= len(want[ti]) || want[ti][pos[ti]] != tk {
-				return core.V(sigp+"|order", "%s: events of broadcaster %d out of order: got %q where %q was next", who, ti, tk, want[ti][min(pos[ti], len(want[ti])-1)])
-			}
-			pos[ti]++
 		}
 		for ti := range want {
-			if pos[ti] != len(want[ti]) {
-				return core.V(sigp+"|missing", "%s: %d of %d events of broadcaster %d (%s) are missing, first missing %q", who, len(want[ti])-pos[ti], len(want[ti]), ti, c.Threads[ti].Kind, want[ti][pos[ti]])
+			var miss []string
+			for _, tk := range want[ti] {
+				if seen[tk] == 0 {
+					miss = append(miss, tk)
+				}
+			}
+			if len(miss) > 0 {
+				return core.V(sigp+"|missing", "%s: %d of %d events of broadcaster %d (%s) are missing: %v", who, len(miss), len(want[ti]), ti, c.Threads[ti].Kind, miss)
+			}
+		}
+		for ti := range want {
+			for j := range want[ti] {
+				if got[ti][j] != want[ti][j] {
+					return core.V(sigp+"|order", "%s: events of broadcaster %d arrived out of order: %v, issued as %v", who, ti, got[ti], want[ti])
+				}
 			}
 		}
 		return nil
